@@ -4,6 +4,8 @@
 //! crate-private parts read through Debug), the instruction list with its labels and frame
 //! attachment from `proj::xsem_of_code` as in the `CClass` cases.
 use fbh::classfile::facts::*;
+#[allow(unused_imports)]
+use fbh::classfile::facts::{ClassG, MethodG};
 use fbh::gal::gstr;
 use crate::proj::{g_on, g_xinsn, xsem_of_code};
 
@@ -249,6 +251,113 @@ pub fn stream_files(ctx: &Ctx, r: &mut Report, rng: &mut Rng) {
 			if bytes.len() > 12_000 { continue; }
 			if let Ok(rc) = raw::parse(&bytes) { if has_cldc_stack_map(&rc) { continue; } }
 			file_case(r, "file-generated", &bytes);
+		}
+	}
+}
+
+fn unhex(h: &str) -> Vec<u8> { (0..h.len() / 2).map(|i| u8::from_str_radix(&h[2 * i..2 * i + 2], 16).expect("hex")).collect() }
+
+/// The example class and the witness classes of the known findings (coq/C01/Witness.v), on the real
+/// crates: the independent parser must accept each of them (they are well-formed class files), the
+/// facts oracle must find exactly the finding the witness stands for, and the model must answer as duke.
+pub fn stream_witnesses(r: &mut Report) {
+	use fbh::classfile::facts::{facts_from_raw, FactGroup};
+	let items: [(&str, &str, Option<&str>); 4] = [("example class", crate::witness::EX_CLASS, None), ("witness of F13p", crate::witness::W_F13P, Some("F13p")),
+		("witness of F13r", crate::witness::W_F13R, Some("F13r")), ("witness of F13t", crate::witness::W_F13T, Some("F13t"))];
+	for (k, (what, hexs, finding)) in items.iter().enumerate() {
+		let bytes = unhex(hexs);
+		r.case("witness", format!("CWitness {k} {}", packed(&bytes)));
+		r.eval(hexs, true);
+		r.count("witness_classes");
+		let replay = format!("property C01\nwhat: {what} (coq/C01/Witness.v)\nclass file (hex): {hexs}\n");
+		let rawc = match raw::parse(&bytes) {
+			Ok(c) => c,
+			Err(e) => { r.violation(format!("{what}: the independent parser rejects the encoding of the Coq structure: {e}"), replay); continue; }
+		};
+		let truth = match facts_from_raw(&rawc) { Ok(t) => t.with_defined_access_bits(), Err(e) => { r.violation(format!("{what}: no facts: {e}"), replay); continue; } };
+		file_case(r, "witness-file", &bytes);
+		match crate::fstreams::duke_read(&bytes) {
+			crate::fstreams::Read::Panic(p) => r.violation(format!("{what}: read_class panicked: {p}"), replay),
+			crate::fstreams::Read::Err(e) => {
+				if *finding == Some("F13t") && e.contains("unknown type reference 19 for method") { r.known("F13t FIELD-targeted type annotation inside method_info (javac 16/17 records) is rejected".into()); r.count("known_F13t"); }
+				else { r.violation(format!("{what}: read_class rejects it: {e}"), replay); }
+			}
+			crate::fstreams::Read::Ok(c) => {
+				let got = fbh::classfile::facts::facts_from_duke(&c);
+				let diff = truth.diff(&got);
+				match finding {
+					None => if !diff.is_empty() { r.violation(format!("{what}: {}", diff.join(" | ")), replay); },
+					Some("F13p") => {
+						let rest = truth.without(&[FactGroup::ParameterAnnotations]).diff(&got.without(&[FactGroup::ParameterAnnotations]));
+						if !rest.is_empty() || diff.is_empty() { r.violation(format!("{what}: expected exactly the parameter annotations to be missing, got: {}", diff.join(" | ")), replay); }
+						else { r.known("F13p parameter annotations are not delivered".into()); r.count("known_F13p"); }
+					}
+					Some("F13r") => {
+						if diff != vec!["class.record: Some([]) != None".to_string()] { r.violation(format!("{what}: expected exactly the empty Record to be missing, got: {}", diff.join(" | ")), replay); }
+						else { r.known("F13r a Record attribute with zero components is not delivered".into()); r.count("known_F13r"); }
+					}
+					_ => r.violation(format!("{what}: duke accepts the class it is known to reject"), replay),
+				}
+			}
+		}
+	}
+}
+
+/// the nesting limit of element values: arrays nested 64 deep are read, 65 deep are refused (fix cd3a624)
+pub fn stream_nesting(r: &mut Report) {
+	use fbh::classfile::asm::{facts_of_spec, ClassSpec};
+	for depth in [1usize, 63, 64, 65, 66] {
+		let mut v = ElementValueFacts::Int(7);
+		for _ in 0..depth { v = ElementValueFacts::Array(vec![v]); }
+		let mut spec: ClassSpec = ClassG::new(61, 0x0021, "p/N", Some("java/lang/Object"));
+		spec.visible_annotations.push(AnnotationFacts { type_desc: JStr::new("LA;"), pairs: vec![(JStr::new("v"), v.clone())] });
+		let mut m = MethodG::new(0x0401, "d", "()[I");
+		m.annotation_default = Some(v);
+		spec.methods.push(m);
+		let Ok(bytes) = try_assemble(&spec, &Knobs::default()) else { r.count("nesting_not_assemblable"); continue };
+		r.eval(&format!("nesting:{depth}"), true);
+		r.count(&format!("nesting_depth_{depth}"));
+		let truth = facts_of_spec(&spec).with_defined_access_bits();
+		match crate::fstreams::duke_read(&bytes) {
+			crate::fstreams::Read::Panic(p) => r.violation(format!("annotation arrays nested {depth} deep: read_class panicked: {p}"), format!("property C01\nwhat: an annotation value of {depth} nested arrays panics\n")),
+			crate::fstreams::Read::Err(e) => {
+				if depth <= 64 { r.violation(format!("annotation arrays nested {depth} deep are rejected: {e}"), format!("property C01\nwhat: an annotation value of {depth} nested arrays (within the limit of 64) is rejected: {e}\n")); }
+				else { r.count("nesting_beyond_limit_rejected"); }
+			}
+			crate::fstreams::Read::Ok(c) => {
+				if depth > 64 { r.count("nesting_beyond_limit_accepted"); }
+				let got = facts_from_duke(&c);
+				if got != truth { r.violation(format!("annotation arrays nested {depth} deep: {}", truth.diff(&got).join(" | ")), format!("property C01\nwhat: an annotation value of {depth} nested arrays is not delivered as written\n")); }
+			}
+		}
+		file_case(r, "file-nesting", &bytes);
+	}
+}
+
+/// outside the hypotheses: damaged files (no oracle: these are not well-formed class files)
+pub fn stream_damaged(ctx: &Ctx, r: &mut Report, rng: &mut Rng) {
+	let mut classes: Vec<(String, Vec<u8>)> = corpus::corpus_small(2500);
+	let cfg = GenCfg::default();
+	for _ in 0..10 { if let Ok(b) = try_assemble(&gen_class(rng, &cfg), &Knobs::default()) { if b.len() <= 4000 { classes.push(("generated".into(), b)); } } }
+	if classes.is_empty() { return; }
+	for _ in 0..(if ctx.thorough { 600 } else { 150 }) {
+		let (_, orig) = rng.pick(&classes[..]);
+		let mut b = orig.clone();
+		let kind = rng.below(5);
+		match kind {
+			0 => { let n = rng.range(8, b.len() - 1); b.truncate(n); }
+			1 => { let i = rng.range(8, b.len() - 1); b[i] = rng.next() as u8; }
+			2 => { let i = rng.range(8, b.len() - 1); b[i] = b[i].wrapping_add(1); }
+			3 => { let i = rng.range(8, b.len() - 1); b[i] = 0; }
+			_ => { let i = rng.range(8, b.len() - 1); b[i] = 0xff; }
+		}
+		r.eval(&crate::streams::hex(&b), true);
+		r.count(&format!("damaged_kind{kind}"));
+		let b2 = b.clone();
+		match guarded(move || duke::read_class(&mut std::io::Cursor::new(b2)).ok().map(|c| class_desc(&c))) {
+			Err(_) => r.count("damaged_panic_not_compared"),
+			Ok(None) => { r.count("damaged_duke_err"); r.case("file-damaged", format!("CFileM {} Err", packed(&b))); }
+			Ok(Some(d)) => { r.count("damaged_duke_ok"); r.case("file-damaged", format!("CFileM {} (Ok {d})", packed(&b))); }
 		}
 	}
 }
